@@ -670,7 +670,8 @@ Inductive lsop :=
 | LSaveState (h : hardstate)
 | LSaveSnapshot (s : snapshot)            (* ILogDB.SaveSnapshots, index above every record saved before *)
 | LSaveEntries (first count term : N)     (* contiguous entries first .. first+count-1 *)
-| LSaveBootstrap (b : bootstrap).
+| LSaveBootstrap (b : bootstrap)
+| LCompact (upto : N).                    (* ILogDB.RemoveEntriesTo: log compaction *)
 
 Fixpoint mk_entries (fuel : nat) (first term : N) : list (N * N) :=
   match fuel with
@@ -691,7 +692,48 @@ Definition apply_lsop (ls : logstore) (o : lsop) : logstore :=
     mkLS (ls_state ls) (ls_bootstrap ls) (Some (first + count - 1)) (ls_snapshots ls)
          (keep ++ mk_entries (N.to_nat count) first term)
   | LSaveBootstrap b => apply_wop ls (WPutBootstrap b)
+  | LCompact upto =>
+    (* Pebble: the entries up to [upto] are deleted *)
+    mkLS (ls_state ls) (ls_bootstrap ls) (ls_maxindex ls) (ls_snapshots ls)
+         (filter (fun e => upto <? fst e) (ls_entries ls))
   end.
+
+(* Tan keeps, per replica, a compaction point in its index: entries at or below
+   it are never returned. nodeIndex.removeAll (ImportSnapshot) forgets it. *)
+Record tstore := mkTS { ts_ls : logstore; ts_compacted : N }.
+
+Definition apply_tsop (t : tstore) (o : lsop) : tstore :=
+  match o with
+  | LCompact upto => mkTS (ts_ls t) (N.max (ts_compacted t) upto)
+  | _ => mkTS (apply_lsop (ts_ls t) o) (ts_compacted t)
+  end.
+
+Definition tan_import_t (t : tstore) (ss : snapshot) : tstore :=
+  mkTS (tan_import (ts_ls t) ss)
+       (if tan_remove_all_resets_compaction then 0 else ts_compacted t).
+
+Definition ts_visible_entries (t : tstore) (lo : N) : list (N * N) :=
+  filter (fun e => ts_compacted t <? fst e) (ls_visible_entries (ts_ls t) lo).
+
+Definition empty_tstore : tstore := mkTS (mkLS None None None [] []) 0.
+
+(* ---- where the log store lives: env.GetLogDBDirs / CreateNodeHostDir give
+   (data dir, low latency dir); the low latency dir is the data dir unless
+   NodeHostConfig.WALDir is set. The tool (tools.getLogDB) and NewNodeHost
+   (NodeHost.createLogDB) hand the pair to the LogDB factory. ---- *)
+Definition get_logdb_dirs (nhdir waldir : bytes) : bytes * bytes :=
+  match waldir with
+  | [] => (nhdir, nhdir)
+  | _ => (nhdir, waldir)
+  end.
+Definition tool_store_dirs (nhdir waldir : bytes) : bytes * bytes :=
+  let (d, w) := get_logdb_dirs nhdir waldir in
+  if getlogdb_passes_wal_dirs then (d, w) else (d, d).
+Definition nodehost_store_dirs (nhdir waldir : bytes) : bytes * bytes :=
+  let (d, w) := get_logdb_dirs nhdir waldir in
+  if nodehost_passes_wal_dirs then (d, w) else (d, d).
+Definition same_dirs (a b : bytes * bytes) : bool :=
+  bytes_eqb (fst a) (fst b) && bytes_eqb (snd a) (snd b).
 
 Definition empty_logstore : logstore := mkLS None None None [] [].
 
